@@ -33,6 +33,8 @@ use bnum::types::I256;
 use crate::matrix::intdense as matdense;
 use crate::matrix::intsparse as matsparse;
 use crate::{Int, Uint, Verbosity};
+#[cfg(yamaquasi_verif_loom)]
+use crate::verif_shim as rayon;
 
 #[derive(Clone, Debug, PartialEq, Eq)]
 pub struct CRelation {
